@@ -1,6 +1,7 @@
 #!/usr/bin/env python3
 """Self-tests of the verification machinery (DESIGN.md section 9).
 
+  ./check selftest unit               unit tests of the harness's reference code (CRC-8, reference decoder, forger)
   ./check selftest determinism        every profile, many seeds, 1 vs 16 workers, two processes each
   ./check selftest replays            committed witness replays reproduce in a fresh process
   ./check selftest mutants [ids...]   sensitivity corpus: each breaking edit must be reported under its
@@ -221,6 +222,10 @@ def main():
         print(__doc__)
         return 2
     what, args = sys.argv[1], sys.argv[2:]
+    if what == "unit":
+        rc, out = sh("cargo test --release --offline 2>&1 | grep -E '^test |test result|error'", cwd=os.path.join(HERE, "sim"))
+        print(out)
+        return 0 if "test result: ok" in out else 1
     if what == "determinism":
         return determinism(args)
     if what == "replays":
